@@ -102,6 +102,7 @@ ATTR = [
     (r"^leftover-tasks$", ["C11"]),
     (r"^after-top-", ["C11", "C13"]),
     (r"^bad-root-begin$", ["C02"]),
+    (r"^user-cancel-other$", ["C11"]),
     (r"^alien-job-run$", ["C02", "C01", "C17"]),
     (r"^alien-job-shutdown$", ["C13", "C17"]),
 ]
@@ -386,7 +387,7 @@ def flatten(cfg):
     flat = {"n": m, "pure": cfg["pure"], "kind": ["sched"] + ["job"] * (m - 1),
             "parent": [0] + [1] * (m - 1),
             "req": [[]] + [sorted(newid[r] for r in flatreq(a)) for a in atoms],
-            "horizon": cfg.get("horizon", 0)}
+            "horizon": cfg.get("horizon", 0), "ucancel": cfg.get("ucancel", -1)}
     for key in ("crit", "forever", "win", "tmo", "stmo", "dur", "out", "sdur", "cdur", "scdur"):
         flat[key] = [cfg[key][0]] + [cfg[key][a - 1] for a in atoms]
     back = [1] + atoms
